@@ -19,7 +19,7 @@ type rpMedia struct {
 
 var rpMediaPool = []rpMedia{
 	{"application/json", "json"}, {"application/vnd.api+json", "json"}, {"application/problem+json", "json"}, {"text/x-json", "json"},
-	{"application/hal+json", "json"}, {"application/yaml", "yaml"}, {"text/yaml", "yaml"}, {"application/xml", "xml"}, {"text/xml", "xml"},
+	{"application/hal+json", "json"}, {"application/vnd.Acme.Report.v2+json", "json"}, {"application/yaml", "yaml"}, {"text/yaml", "yaml"}, {"application/xml", "xml"}, {"text/xml", "xml"},
 	{"text/plain", "other"}, {"application/octet-stream", "other"},
 	// structured-syntax XML types are outside the generator's fixed XML list: no typed field, no parse clause
 	{"application/problem+xml", "other"}, {"application/atom+xml", "other"},
@@ -182,6 +182,8 @@ func runC13(r *Report, rng *rand.Rand, thorough bool) {
 		{"w2", []rpResponse{{"200", []rpMedia{{"application/json", "json"}}}, {"default", []rpMedia{{"application/json", "json"}, {"application/problem+json", "json"}}}}, false},
 		{"c1", []rpResponse{{"200", []rpMedia{{"application/json", "json"}}}, {"2XX", []rpMedia{{"application/json", "json"}}}, {"default", []rpMedia{{"application/json", "json"}}}}, false},
 		{"c2", []rpResponse{{"200", []rpMedia{{"application/json", "json"}, {"application/xml", "xml"}, {"application/yaml", "yaml"}}}, {"404", []rpMedia{{"application/problem+json", "json"}}}}, false},
+		// a vendor media type spelled with capitals next to plain JSON (exact-match clauses)
+		{"c3", []rpResponse{{"200", []rpMedia{{"application/json", "json"}, {"application/vnd.Acme.Report.v2+json", "json"}}}, {"404", []rpMedia{{"application/json", "json"}}}}, false},
 		// free-form schemas: the typed field is a *interface{}
 		{"f1", []rpResponse{{"200", []rpMedia{{"application/json", "json"}}}, {"default", []rpMedia{{"application/json", "json"}}}}, true},
 	}
@@ -238,7 +240,7 @@ func runC13(r *Report, rng *rand.Rand, thorough bool) {
 		sort.Strings(ctl)
 		for _, s := range statuses {
 			for _, ct := range ctl {
-				if !thorough && i >= 4 && rng.Intn(3) != 0 {
+				if !thorough && i >= 5 && rng.Intn(3) != 0 {
 					continue
 				}
 				id := fmt.Sprintf("%s/%d/%s", o.id, s, ct)
